@@ -23,7 +23,7 @@ RULE = ('tier 1: for each program (3-8 operations covering every mutating method
         'random instants into a 2-thread child. evaluations = kill runs judged; distinct_nontrivial = distinct '
         '(program, kill gate) pairs + distinct (syscall, n) kills')
 DISTINCT = ('kill_points', 'syscall_kills', 'random_kills')
-REQUIRED = ('gate_kills_judged', 'kills_during_open', 'kills_during_first_write', 'programs_wal', 'programs_rollback_journal', 'blocked_commit_runs_with_failed_commit', 'programs_fully_enumerated', 'kills_inside_block', 'kills_at_file_ops',
+REQUIRED = ('gate_kills_judged', 'kills_during_open', 'kills_during_first_write', 'programs_wal', 'programs_rollback_journal', 'blocked_commit_runs_with_failed_commit', 'size_evictions_seen_in_dry_runs', 'programs_fully_enumerated', 'kills_inside_block', 'kills_at_file_ops',
             'kills_at_sql_gates', 'debris_seen_unknown_files_or_dirs', 'syscall_kills_judged', 'random_kills_judged')
 ASSUMPTIONS = ('SIGKILL is process death, not power loss (page cache survives); durability against power failure is not '
                'examined', 'sequential semantics of each operation are taken from a dry run of the same program '
@@ -286,6 +286,14 @@ def enumerate_program(dc, sc, res, prog_id, spec, label, stride=1, offset=0, jou
             commits[cur].append([tuple(x) if isinstance(x, list) else x for x in r['commit_state']])
         elif 'done' in r:
             states[r['done']] = [tuple(x) if isinstance(x, list) else x for x in r['state']]
+    # the situations a program is about must really occur in its dry run (a size-eviction program that never evicts
+    # proves nothing): count them, the counters are required
+    if kind == 'cache' and any(op[0] == 'reset' and op[1] == 'size_limit' for op in program):
+        first = {k for k, _ in s_init}
+        last = {k for k, _ in states[max(states)]}
+        removed_by_program = {repr(op[1]) for op in program if op[0] in ('pop', 'delete') and len(op) > 1}
+        if (first - last) - removed_by_program:
+            res.count('size_evictions_seen_in_dry_runs', len((first - last) - removed_by_program))
     all_done = True
     for k in range(1 + offset, G + 1, stride):
         d = sc.new('k')
